@@ -11,6 +11,10 @@ for un in sorted(f[:-5] for f in os.listdir(os.path.join(V, "units")) if f.endsw
         for p in c.props:
             if p in R.PROPS and un not in R.PROPS[p].get("units", []):
                 print("dead tag", p, un, c.fn, c.id); bad += 1
+    for (su, sf, sc) in u.imports:
+        for p, d in R.PROPS.items():
+            if un in d.get("units", []) and su not in d.get("units", []):
+                print("import without its proof", p, un, "%s:%s:%s" % (su, sf, sc)); bad += 1
     for f in u.functions:
         for p in f.get("props", []):
             if p in R.PROPS and un not in R.PROPS[p].get("units", []):
